@@ -821,6 +821,12 @@ func streamCont(o *Out, r *rand.Rand, n int, thorough bool) {
 		{"t = make([]int64, 2)\np = &t[0]\n*p = 4\nt[1] = 6\n[t, *p]", "[]iface[[]int64[int64:4 int64:6] int64:4]"},
 		{"a = [\"x\", [1, 2]]\np = &a[1]\nq = *p\nq[0] = 8\na[1]", "[]iface[int64:8 int64:2]"},
 		{"a = [1, 2]\nfunc set(p, v) { *p = v }\nset(&a[0], 10)\nset(&a[1], 20)\na", "[]iface[int64:10 int64:20]"},
+		// a store that fails leaves the slot as it was - a nil map stays nil (no map is allocated for a store that does not happen)
+		{"a = make([]map[string]int64, 2)\ntry {\na[0][\"k\"] = \"not a number\"\n} catch e {\n}\ntry {\na[1].k = [1]\n} catch e {\n}\n[a[0] == nil, a[1] == nil, len(a[0])]", "[]iface[bool:true bool:true int64:0]"},
+		{"b = make([]map[int64]string, 1)\nr = \"stored\"\ntry {\nb[0][\"x\"] = \"v\"\n} catch e {\nr = \"failed\"\n}\n[r, b[0] == nil]", "[]iface[string:" + hexOf("failed") + " bool:true]"},
+		{"c = make([]map[interface]int64, 1)\nr = \"stored\"\ntry {\nc[0][[1, 2]] = 1\n} catch e {\nr = \"failed\"\n}\n[r, c[0] == nil]", "[]iface[string:" + hexOf("failed") + " bool:true]"},
+		{"t = make([]struct{M map[string]int64}, 1)\nr = \"stored\"\ntry {\nt[0].M[\"j\"] = [1]\n} catch e {\nr = \"failed\"\n}\n[r, t[0].M == nil]", "[]iface[string:" + hexOf("failed") + " bool:true]"},
+		{"d = make([]map[string]int64, 1)\nd[0][\"k\"] = 7\n[d[0] == nil, d[0].k]", "[]iface[bool:false int64:7]"},
 		{"x = make(S)\ny = x\ny.A = 4\n[x.A, y.A]", "SKIP"},
 		{"x = make(S)\nx.Nope = 1", "ERROR"}, {"x = make(S)\nx.Nope", "ERROR"}, {"x = make(S)\nx.A = 3\nx.A", "int64:3"},
 		{"x = make(S)\nx.C = [1, 2]\nx.C[1]", "int64:2"}, {"x = make(S)\nx.D = {\"a\": 1}\nx.D.a", "int64:1"}, {"x = make(S)\nx.G = [1]\nx.G", "[]iface[int64:1]"},
